@@ -10,6 +10,8 @@
 (*   theta class of the sampled coefficients stored in the model           *)
 (*         "-" (PIT has none) | "soft" | "hard" (one-hot)                  *)
 (*   bn    number of BatchNorm statistics updates so far (saturating)      *)
+(*   opt   the option record as the user set it (see below)                *)
+(*   samp  the sampling routine actually in force                          *)
 (*   dk    attribute keys added to the __dict__ of modules of the model    *)
 (*         since construction (abstract: a set of key classes)             *)
 (* plus, not modelled but observed on the real object as opaque values,    *)
@@ -23,6 +25,8 @@
 (*   [a |-> "setcs", c |-> "A"|"B"|"D"]    cost_specification = ...        *)
 (*   [a |-> "forward"]                     forward pass on a batch         *)
 (*   [a |-> "mode", v |-> BOOLEAN]         .train() / .eval()              *)
+(*   [a |-> "upd", o |-> option, v |-> value]  one option call (NOT an     *)
+(*                                         observer)                       *)
 (*                                                                         *)
 (* Next(impl, ...) is the effect of a call on the core:                    *)
 (*   impl = "ref"     what the property demands (observers = identity)     *)
@@ -32,6 +36,8 @@
 (*                    (F16), which for MPS also re-samples the persistent  *)
 (*                    theta_alpha buffers in eval mode (F35)               *)
 (*   impl = "f16"     pinned + the candidate repair of F16 (mode restored) *)
+(*   impl = "optreset" ref, except that export() switches sampling back ON *)
+(*                    (disable := FALSE) instead of back to what it was    *)
 (*   impl = "costkeys" ref, except that cost / get_cost hand the LIVE      *)
 (*                    vars(module) dictionary to the cost functions and    *)
 (*                    update it (F36: MPSAdd under vmap; F37: fixed /      *)
@@ -46,36 +52,71 @@ IsObserver(a) == a.a \in ObserverOps
 
 Min2(x, y) == IF x < y THEN x ELSE y
 
-\* class of the coefficients a forward pass leaves in the model (deterministic samplers: softmax, no Gumbel noise)
-\*   MPS      : STE arg-max whenever hard_softmax or the quantiser is in eval mode
-\*   SuperNet : one-hot only with hard_softmax (the softmax sampler does not look at the mode)
+\* class of the coefficients a forward pass leaves in the model (the same for the softmax and the Gumbel sampler)
+\*   MPS      : one-hot whenever hard_softmax or the quantiser is in eval mode
+\*   SuperNet : one-hot only with hard_softmax (the eval-mode sampler is the plain softmax)
 Sampled(kind, hard, st) ==
     IF kind = "pit" THEN "-"
     ELSE IF kind = "mps" THEN (IF hard \/ ~st THEN "hard" ELSE "soft")
     ELSE (IF hard THEN "hard" ELSE "soft")
 
-\* P = [hard |-> BOOLEAN, hasbn |-> BOOLEAN, maxbn |-> Nat]
+(***************************************************************************)
+(* Options (the "configuration" of the search, as the user set it) and the *)
+(* sampler actually in force.  One record for the three kinds; a kind only *)
+(* ever changes its own options:                                           *)
+(*   MPS      temp, hard, gumbel, disable   update_softmax_options(...)    *)
+(*   SuperNet temp, hard                    update_softmax_options(...)    *)
+(*            (gumbel is a constructor argument of the SuperNetModules)    *)
+(*   PIT      tf, trf, td, dc   train_features / train_rf / train_dilation *)
+(*                              / discrete_cost := v                       *)
+(* temp is the temperature x 1000; booleans are 0 / 1 in calls.            *)
+(***************************************************************************)
+OptNames(kind) == IF kind = "mps" THEN {"temp", "hard", "gumbel", "disable"}
+                  ELSE IF kind = "sn" THEN {"temp", "hard"}
+                  ELSE {"tf", "trf", "td", "dc"}
+
+DefaultOpt == [temp |-> 1000, hard |-> FALSE, gumbel |-> FALSE, disable |-> FALSE,
+               tf |-> TRUE, trf |-> TRUE, td |-> TRUE, dc |-> FALSE]
+
+SetOpt(opt, o, v) == IF o = "temp" THEN [opt EXCEPT !.temp = v] ELSE [opt EXCEPT ![o] = (v = 1)]
+OptIs(opt, o, v)  == IF o = "temp" THEN opt.temp = v ELSE opt[o] = (v = 1)
+
+\* the sampling routine the options select: "sm" softmax | "gs" Gumbel softmax | "none" sampling disabled | "-" PIT
+SamplerOf(kind, opt) ==
+    IF kind = "pit" THEN "-"
+    ELSE IF kind = "mps" /\ opt.disable THEN "none"
+    ELSE IF opt.gumbel THEN "gs" ELSE "sm"
+
+\* P = [hasbn |-> BOOLEAN, maxbn |-> Nat]
 FwdCore(kind, P, c) ==
-    [c EXCEPT !.theta = Sampled(kind, P.hard, c.st),
+    [c EXCEPT !.theta = IF c.samp = "none" THEN c.theta ELSE Sampled(kind, c.opt.hard, c.st),
               !.bn    = IF c.st /\ P.hasbn THEN Min2(c.bn + 1, P.maxbn) ELSE c.bn]
 
 RefNext(kind, P, c, a) ==
     IF a.a = "forward" THEN FwdCore(kind, P, c)
     ELSE IF a.a = "mode" THEN [c EXCEPT !.wt = a.v, !.st = a.v]
+    ELSE IF a.a = "upd" THEN LET o2 == SetOpt(c.opt, a.o, a.v) IN [c EXCEPT !.opt = o2, !.samp = SamplerOf(kind, o2)]
     ELSE c                                   \* observers and the cost-specification setter
 
 \* the pinned export: convert(self.seed, ..., 'export') = trace(seed.eval()); ShapeProp forward on the live seed
 PinnedExport(kind, P, c, restore) ==
     [c EXCEPT !.st    = IF restore THEN c.st ELSE FALSE,
-              !.theta = Sampled(kind, P.hard, FALSE)]
+              !.theta = IF c.samp = "none" THEN c.theta ELSE Sampled(kind, c.opt.hard, FALSE)]
+
+\* an export() that protects the stored coefficients by switching sampling off around the conversion and then
+\* switches it back ON instead of back to what it was (a seeded defect the check must see)
+OptResetExport(kind, c) ==
+    LET o2 == [c.opt EXCEPT !.disable = FALSE] IN [c EXCEPT !.opt = o2, !.samp = SamplerOf(kind, o2)]
 
 ImplNext(impl, kind, P, c, a) ==
     IF impl = "ref" THEN RefNext(kind, P, c, a)
     ELSE IF impl = "costkeys"
          THEN (IF a.a \in {"cost", "getcost"} THEN [c EXCEPT !.dk = c.dk \cup {"costkeys"}] ELSE RefNext(kind, P, c, a))
+    ELSE IF impl = "optreset"
+         THEN (IF a.a = "export" THEN OptResetExport(kind, c) ELSE RefNext(kind, P, c, a))
     ELSE IF a.a = "export" THEN PinnedExport(kind, P, c, impl = "f16")
-    ELSE IF a.a = "summary" /\ kind = "sn"
-         THEN [c EXCEPT !.theta = Sampled(kind, P.hard, c.st)]   \* SuperNetCombiner.summary() re-samples
+    ELSE IF a.a = "summary" /\ kind = "sn" /\ c.samp # "none"
+         THEN [c EXCEPT !.theta = Sampled(kind, c.opt.hard, c.st)]   \* SuperNetCombiner.summary() re-sampled
     ELSE RefNext(kind, P, c, a)
 
 \* which calls exist for a kind / specification
@@ -84,6 +125,7 @@ Enabled(kind, cs, a) ==
     /\ (a.a = "cost" => cs # "D")
     /\ (a.a = "getcost" => cs = "D")
     /\ (a.a = "setcs" => a.c # cs)
+    /\ (a.a = "upd" => a.o \in OptNames(kind))
 
 (***************************************************************************)
 (* Sequences of calls: running a sequence and running it with every        *)
